@@ -123,8 +123,10 @@ def check_C02(ctx):
     rep.rule("W-REFUSE", "a reader path that panics depending on a value it read: the writer writes constants under a selector on the value at that position")
     nref = sum(rules_wire.check_refusals(t, "eps", rep) for t in ts)
     rep.count("value_dependent_reader_refusals_examined", nref)      # no floor: a reader without such a refusal has nothing to justify
-    rep.rule("ALIGN", "the writer's align and the slice reader's align move by the same amount pad_align_to(position, unit(T))")
-    align_pair(ctx, ("default WriteWithNames", "SliceWithPos"))
+    rep.rule("W1 (full)", "the full-copy reader consumes the same term, per static case: the eps result describes the value full-copy deserialization yields from the same bytes only if both readers accept and decode the same stream forms")
+    wire_props(ctx, ("full",), ("W1",), 56)
+    rep.rule("ALIGN", "the writer's align and both readers' aligns move by the same amount pad_align_to(position, unit(T)), and none indexes a fixed scratch buffer with the padding")
+    align_pair(ctx, ("default WriteWithNames", "SliceWithPos", "ReaderWithPos"))
     rep.rule("M1", "every alignment unit is a power of two >= the native alignment: the eps reader pads with the mask form of pad_align_to and tests `address % unit`, which agree with the writer's offsets only for power-of-two units")
     try:
         uu, cname = units_universe(ctx)
@@ -545,6 +547,8 @@ def check_C07(ctx):
     rep.floor("derived zero-copy units checked", nd, 15)
     rules_align.rule_align_impls(u, rep)
     rules_align.rule_pos_accounting(u, rep)
+    rep.rule("PAD", "pad_align_to, folded by constant propagation on a grid of offsets and power-of-two units (small, around multiples, around 2^32, top of usize), is (-offset) mod unit; an unfoldable body is left undecided")
+    rules_align.rule_pad_function(u, rep)
     rep.rule("WRITE-BYTES", "padding is emitted only at alignment points: the writer primitive write_bytes emits exactly the slice it is given")
     rep.floor("default write_bytes paths", rules_align.rule_write_bytes_plain(u, rep), 1)
     rep.floor("default write paths", rules_align.rule_write_delegates(u, rep), 1)
@@ -556,8 +560,8 @@ def check_C07(ctx):
             rep.floor("derived zero-copy units of the generated corpus", kg, 45)
     return ("Alignment units folded by constant propagation over rustc's layouts for a universe of closed zero-copy types; the four align implementations "
             "and the position-tracking wrappers checked by abstract interpretation (same padding expression, zero bytes, exact position accounting); "
-            "adjacency of alignment points and raw blocks on all three sides of every impl. The arithmetic of pad_align_to itself (minimality for every "
-            "offset/unit pair) is NOT decided.")
+            "adjacency of alignment points and raw blocks on all three sides of every impl. The arithmetic of pad_align_to is folded on a finite grid of offset/unit pairs only "
+            "(minimality for every pair is not decided).")
 
 
 def check_C16(ctx):
@@ -570,6 +574,8 @@ def check_C16(ctx):
     u, w, ts, exp = ctx.triples("default", CORPUS)
     recs = rules_hash.collect(u, rep)
     rules_hash.rule_H4(u, recs, rep)
+    rep.rule("SINGLE-PASS", "every entry point of Serialize (serialize, serialize_with_schema, store, and the blanket serialize_on_field_write) traverses self exactly once on every successful path: SerIter can be serialized once only")
+    rep.floor("serialization entry paths", rules_loader.rule_single_pass(u, rep), 4)
     rep.rule("WRITE-BYTES", "the writer primitive write_bytes emits exactly the slice it is given: the per-item writes of SerIter then add up to the single block write of Vec<T>")
     rep.floor("default write_bytes paths", rules_align.rule_write_bytes_plain(u, rep), 1)
     for t in ts:
@@ -1110,6 +1116,9 @@ def check_C19(ctx):
     rep.floor("cursor method paths analysed", n, 12)
     k = rules_cursor.rule_psub(u, rep)
     rep.floor("subtractions analysed", k, 2)
+    rep.rule("CUR-BOUNDS", "every indexing of the storage lies inside it, on every path: the symbolic range and slice length are constant-folded on a grid of states (unit size, allocated units, length, position incl. beyond the capacity and near usize::MAX, buffer length incl. 0) under the path's conditions")
+    g = rules_cursor.rule_cursor_bounds(u, rep)
+    rep.floor("storage indexings evaluated on the grid", g, 500)
     return ("State-update relations of the cursor's methods extracted from all their paths (abstract interpretation with the old state symbolic) and compared with the relations "
             "std::io::Cursor<Vec<u8>> documents; storage base address; guarded subtractions. Equivalence with std::io::Cursor over operation histories is NOT decided: these are "
             "necessary per-operation conditions only.")
